@@ -292,6 +292,10 @@ class Statement(object):
         :param statements: the full set of statements that make up the program
         :param this_index: the index that this instruction occurs at
         """
+        if self.instruction.is_pseudo_define:
+            # A symbol definition emits nothing itself, its value is resolved where it is used
+            return
+
         if self.operand.is_relative():
             base_value = 0x101 if self.instruction.is_short_branch else 0x10001
             branch_index = self.code_pkg.additional.int
